@@ -247,7 +247,9 @@ func OracleC01(w *World, h *History) {
 		}
 		checkDirection(w, h, r, "response", hsends, crecvs, p.RespSizes, func() (bool, int64) {
 			for _, o := range crecvs {
-				if o.Returned() && o.Res.Err == io.EOF {
+				// told "ended normally": io.EOF, or the single successful
+				// RecvMsg of a call whose response is not streamed
+				if o.Returned() && (o.Res.Err == io.EOF || (o.Res.Err == nil && o.Res.Terminal)) {
 					return true, o.Ret
 				}
 			}
